@@ -8,7 +8,7 @@ package main
 // the initialiser of a package-level variable) that
 //
 //	write  assigns to, increments, deletes from, clears or copies into a package-level variable (or a part of one)
-//	addr   takes the address of a package-level variable (the usual way of handing it to sync/atomic)
+//	addr   hands the address of a package-level variable to a function (the usual way of using sync/atomic on it)
 //	passes hands a package-level map or pointer to a function of the same package (which could write through it)
 //	uses   mentions a function that writes (so that a table builder called from anywhere but init shows up)
 //	call   calls a method on a package-level variable whose type comes from sync or sync/atomic (Pool.Get, Once.Do,
@@ -130,13 +130,14 @@ func genStateImpl(repo string, root *pkg) {
 						if v := pkgVar(x.X); v != nil {
 							facts = append(facts, fact{pk.rel, file, fn, "write", v.Name()})
 						}
-					case *ast.UnaryExpr:
-						if x.Op == token.AND {
-							if v := pkgVar(x.X); v != nil {
-								facts = append(facts, fact{pk.rel, file, fn, "addr", v.Name()})
+					case *ast.CallExpr:
+						for _, a := range x.Args {
+							if u, ok := a.(*ast.UnaryExpr); ok && u.Op == token.AND {
+								if v := pkgVar(u.X); v != nil {
+									facts = append(facts, fact{pk.rel, file, fn, "addr", v.Name()})
+								}
 							}
 						}
-					case *ast.CallExpr:
 						if id, ok := x.Fun.(*ast.Ident); ok && (id.Name == "delete" || id.Name == "clear" || id.Name == "copy") && len(x.Args) > 0 {
 							if _, builtin := p.info.Uses[id].(*types.Builtin); builtin {
 								if v := pkgVar(x.Args[0]); v != nil {
